@@ -90,7 +90,7 @@ def build(case):
     shift_ecs = case["which"] in ("extra_coords", "combined_wcs")
     shared = None
     for k, sh in enumerate(case["shifts"]):
-        cube = E.build_cube(case["shape"], case["fam"], case["wseed"], [], with_shape=(case["wseed"] % 4 != 0))
+        cube = E.build_cube(case["shape"], case["fam"], case["wseed"], [], with_shape={0: False, 1: "larger", 2: "smaller"}.get(case["wseed"] % 8, True))
         if case.get("share_wcs"):
             shared = shared if shared is not None else cube.wcs
             cube = type(cube)(C.payload(tuple(case["shape"]), k), wcs=shared, meta={"cube": k})
